@@ -64,6 +64,14 @@ class Intervals:
             if th is not None and hi is not None:
                 hi = min(hi, th)
             return (max(src[0], 0), hi)
+        if k in ("into", "from") and len(t) > 1:
+            inner = self.expand(t[1])
+            if inner[0] == "sym" and inner[1][0] in ("enum_eq", "cmp", "not"):
+                return (0, 1)            # usize::from(bool)
+            if inner[0] == "c" and isinstance(inner[1], int):
+                return (inner[1], inner[1])
+            r = self.of(inner)
+            return r if r[1] is not None else None
         if k == "index":
             # element of a byte slice / array
             return (0, 255) if True else None
